@@ -337,7 +337,7 @@ def byte_trees(ctx, names=('utf8', 'utf8x4', 'utf8x4b', 'mixed', 'mixedlenient')
     return files
 
 
-STRICT_TREES = ['struct', 'lit', 'num', 'numtop', 'numobj', 'str', 'hex', 'tokens', 'nest', 'ws']
+STRICT_TREES = ['struct', 'lit', 'num', 'numtop', 'numobj', 'str', 'hex', 'tokens', 'nest', 'ws', 'strpad', 'keypad', 'numpad']
 SURR_TREES = ['surr', 'surrkey', 'surropen']
 
 
@@ -363,7 +363,7 @@ def c02(ctx):
 
 
 def c05(ctx):
-    files = parser_trees(ctx, ['struct', 'tokens', 'nest', 'str', 'numobj'] + SURR_TREES)
+    files = parser_trees(ctx, ['struct', 'tokens', 'nest', 'str', 'numobj', 'strpad', 'keypad', 'numpad'] + SURR_TREES)
     ctx.replay(files, ['C05.'])
     parser_trace(ctx, ['C05.'])
 
